@@ -27,6 +27,7 @@ EXPLANATION = (
     "decoded length >= 0 (returned cursor >= input cursor + prefix, <= len(data)); for each `for _ in range(count)` in "
     "a decoder every path through the body passes a checked primitive read."
 )
+SHARED = [('C05', ['R1'], 'decoders read counted arrays element by element through checked primitives')]
 ASSUMPTIONS = ["CRC-32 detects all burst errors of length <= 32 bits", "struct.calcsize(fmt) >= 0; struct raises on malformed formats",
                "snappy library absent: xerial framing loop excluded from the termination claim"]
 READERS = ("relative_unpack", "read_short_bytes", "read_short_ascii", "read_short_text", "read_int_string")
